@@ -196,6 +196,10 @@ def execute(case, ctx):
         ctx.fault("option_swarm")
     backend = seams.effective_backend(case.get("backend", "numpy"), [x for f in world_factors(world) for x in f["values"]])
     seams.set_backend(backend)
+    if backend == "torch":
+        from ..refmodel import set_torch_rounding
+
+        set_torch_rounding(True)  # values pass through float32 at every factor construction (known finding of C01)
     if backend != "numpy":
         ctx.fault("backend_config")
     single = backend.endswith("float32")
